@@ -362,7 +362,7 @@ def main(argv):
     rng = random.Random(a.seed * 1000003 + 17)
     try:
         if a.tier == "quick":
-            cfgs = (a.configs.split(",") if a.configs else ["default", "w32", "m51"])
+            cfgs = (a.configs.split(",") if a.configs else ["default", "w32", "m51", "zz32"])
             reps = max(1, int(2 * a.scale))
         else:
             cfgs = (a.configs.split(",") if a.configs else ALL_CONFIGS)
@@ -380,6 +380,10 @@ def main(argv):
             jobs = []
             for name, (lines, only) in entries.items():
                 if only and not Case([], [], only=only).applies(cfg):
+                    continue
+                # the zz32 build differs from the default one only in the big-integer helpers of the jq255e / GLS254
+                # endomorphism splits: in the quick tier it runs those groups only
+                if cfg == "zz32" and a.tier == "quick" and not any(k in name for k in ("jq255e", "gls254")):
                     continue
                 # split big groups to use all cores
                 chunk = 400
